@@ -133,6 +133,8 @@ fn child_main(args: &[String]) -> i32 {
   use std::io::Read;
   let _ = std::io::stdin().read_to_string(&mut input);
   match args.first().map(|s| s.as_str()) {
+    // C18: the HTTP service from the working tree on 127.0.0.1:<port>, until killed
+    Some("c18-server") => c18::server_child(&args[1..], &input),
     _ => {
       eprintln!("unknown child family");
       2
